@@ -1,8 +1,9 @@
 (** * C07 — AltrootFS is an exact and confined re-rooting (pinned statements). *)
-From stdpp Require Import list.
+From stdpp Require Import gmap list.
 From Coq Require Import NArith.
-From VFS Require Import Path.Str Core.Types Core.Prog Core.Calls Layer.VfsPath Layer.Altroot Layer.Config Layer.Run
-  Proofs.CallsOk Proofs.AdapterOk Proofs.ConfigOk Props.C06.
+From VFS Require Import Path.Str Core.Types Core.Prog Core.Calls Base.MemFS Base.Handles Base.Store
+  Layer.VfsPath Layer.Altroot Layer.Config Layer.Run
+  Proofs.CallsOk Proofs.AdapterOk Proofs.ConfigOk Proofs.MemPublic Proofs.AltExact Props.C06.
 
 (** Confinement: whatever trait call is made on an altroot filesystem rooted at
     [root] of base filesystem [i], and whatever the base replies, every call that
@@ -36,6 +37,62 @@ Theorem C07_altroot_pure : forall k g root c,
   mutating c = false -> calls_ok nonmut (interp (FAlt k g root) c).
 Proof. intros k g root. exact (interp_pure (FAlt k g root)). Qed.
 
+(** Exactness: an operation on path q of an altroot rooted at [root] IS that operation on [root ++ q]
+    of the underlying filesystem - for ANY underlying filesystem [u] (a backend, another adapter, any
+    stacking) and against ANY handler: same final state, same outcome, the path an error carries
+    being the caller's q.  (read_dir: the children of root ++ q, shown below q.) *)
+Theorem C07_exact_metadata : forall (u : vfs) root k (S : Type) (h : handler brep S) q s,
+  run h (vp_metadata (altv u root k) q) s =
+  (fst (run h (vp_metadata u (root ++ q)) s), relabel_to q (snd (run h (vp_metadata u (root ++ q)) s))).
+Proof. exact alt_metadata_exact. Qed.
+Theorem C07_exact_exists : forall (u : vfs) root k (S : Type) (h : handler brep S) q s,
+  run h (vp_exists (altv u root k) q) s = run h (vp_exists u (root ++ q)) s.
+Proof. exact alt_exists_exact. Qed.
+Theorem C07_exact_open_file : forall (u : vfs) root k (S : Type) (h : handler brep S) q s,
+  run h (vp_open_file (altv u root k) q) s =
+  (fst (run h (vp_open_file u (root ++ q)) s), relabel_to q (snd (run h (vp_open_file u (root ++ q)) s))).
+Proof. exact alt_open_file_exact. Qed.
+Theorem C07_exact_append_file : forall (u : vfs) root k (S : Type) (h : handler brep S) q s,
+  run h (vp_append_file (altv u root k) q) s =
+  (fst (run h (vp_append_file u (root ++ q)) s), relabel_to q (snd (run h (vp_append_file u (root ++ q)) s))).
+Proof. exact alt_append_file_exact. Qed.
+Theorem C07_exact_remove_file : forall (u : vfs) root k (S : Type) (h : handler brep S) q s,
+  run h (vp_remove_file (altv u root k) q) s =
+  (fst (run h (vp_remove_file u (root ++ q)) s), relabel_to q (snd (run h (vp_remove_file u (root ++ q)) s))).
+Proof. exact alt_remove_file_exact. Qed.
+Theorem C07_exact_remove_dir : forall (u : vfs) root k (S : Type) (h : handler brep S) q s,
+  run h (vp_remove_dir (altv u root k) q) s =
+  (fst (run h (vp_remove_dir u (root ++ q)) s), relabel_to q (snd (run h (vp_remove_dir u (root ++ q)) s))).
+Proof. exact alt_remove_dir_exact. Qed.
+Theorem C07_exact_read_dir : forall (u : vfs) root k (S : Type) (h : handler brep S) q s,
+  run h (vp_read_dir (altv u root k) q) s =
+  (fst (run h (vp_read_dir u (root ++ q)) s),
+   match snd (run h (vp_read_dir u (root ++ q)) s) with
+   | Ok children => Ok (map (fun n => q ++ [n]) (omap (fun c => last c) children))
+   | Err e => Err (with_path e (PPath q))
+   | Panic => Panic
+   end).
+Proof. exact alt_read_dir_exact. Qed.
+
+(** the two creating calls are the underlying call preceded by VfsPath's parent probe (as programs) *)
+Theorem C07_create_is_probe_then_underlying : forall (u : vfs) root k q,
+  vp_create_dir (altv u root k) q = (try* _ := vp_get_parent (altv u root k) q in labelled (vp_create_dir u (root ++ q)) q) /\
+  vp_create_file (altv u root k) q = (try* _ := vp_get_parent (altv u root k) q in labelled (vp_create_file u (root ++ q)) q).
+Proof. intros. split; reflexivity. Qed.
+
+(** over a MemoryFS the probe is pure and repeats the underlying call's own check: creating through
+    the altroot is creating at root ++ q, for every q but the altroot's own root *)
+Theorem C07_exact_create_dir_mem : forall lg ft root k (s : mstate) hs q, q <> [] ->
+  run bhandler (vp_create_dir (altv mv root k) q) (mstore s hs lg ft) =
+  (fst (run bhandler (vp_create_dir mv (root ++ q)) (mstore s hs lg ft)),
+   relabel_to q (snd (run bhandler (vp_create_dir mv (root ++ q)) (mstore s hs lg ft)))).
+Proof. exact alt_create_dir_mem. Qed.
+Theorem C07_exact_create_file_mem : forall lg ft root k (s : mstate) hs q, q <> [] ->
+  run bhandler (vp_create_file (altv mv root k) q) (mstore s hs lg ft) =
+  (fst (run bhandler (vp_create_file mv (root ++ q)) (mstore s hs lg ft)),
+   relabel_to q (snd (run bhandler (vp_create_file mv (root ++ q)) (mstore s hs lg ft)))).
+Proof. exact alt_create_file_mem. Qed.
+
 Example C07_example :
   confined [[114%N]; [115%N]] (CCreateDir ([[114%N]; [115%N]] ++ [[97%N]])) /\
   ~ confined [[114%N]; [115%N]] (CCreateDir [[120%N]]).
@@ -50,3 +107,13 @@ Print Assumptions C07_no_escape.
 Print Assumptions C07_path_is_join.
 Print Assumptions C07_altroot_pure.
 Print Assumptions C07_example.
+Print Assumptions C07_exact_metadata.
+Print Assumptions C07_exact_exists.
+Print Assumptions C07_exact_open_file.
+Print Assumptions C07_exact_append_file.
+Print Assumptions C07_exact_remove_file.
+Print Assumptions C07_exact_remove_dir.
+Print Assumptions C07_exact_read_dir.
+Print Assumptions C07_create_is_probe_then_underlying.
+Print Assumptions C07_exact_create_dir_mem.
+Print Assumptions C07_exact_create_file_mem.
